@@ -95,6 +95,7 @@ def check_encode_like(out, facts, rule='R16.1'):
 
 
 def run(cx, out):
+    out.rule('R01.3', 'premise: TYPE_INFO is overridden by exactly the 12 primitives, so sequences of any other element type (incl. holders) are encoded element-wise')
     out.rule('R16.1', 'W(A) == W(B) for every impl EncodeLike<B> for A under the impl\'s EncodeLike hypotheses')
     for cfg in lib_cfgs(cx):
         facts = cx.facts(cfg)
@@ -102,3 +103,6 @@ def run(cx, out):
         n_cmp, n_refl = check_encode_like(out, facts)
         want = {'A': 52, 'B': 52, 'C': 52, 'D': 56, 'E': 56}.get(cfg, 52)
         out.floor('R16.1', 'non-reflexive EncodeLike impls compared [%s]' % cfg, n_cmp, want)
+        # premise of the sequence shapes: only the 12 primitives take the bulk path (C01 R01.3)
+        from . import c01
+        c01.check_type_info(out, facts)
